@@ -113,6 +113,21 @@ pub fn scenarios(st: &mut Stats) -> Vec<Scn> {
         v.push((Ty::Ts, "DAY", WDF[k], Given { dow: Some(k as u32), ..g() }, false));
         v.push((Ty::Ora, "DY", WD3[k], Given { dow: Some(k as u32), ..g() }, false));
     }
+    for ty in [Ty::Date, Ty::Ts, Ty::Ora] {
+        // complete texts whose year comes last: nothing of the clock may be consulted on the way
+        v.push((ty, "MM/DD/YYYY", "02/29/2024", Given { year: year(2024, 4, 4), month: Some(2), day: Some(29), ..g() }, true));
+        v.push((ty, "MM-DD-YYYY", "02-29-2000", Given { year: year(2000, 4, 4), month: Some(2), day: Some(29), ..g() }, true));
+        v.push((ty, "MONTH DD, YYYY", "february 29, 2020", Given { year: year(2020, 4, 4), month: Some(2), day: Some(29), ..g() }, true));
+        v.push((ty, "MM/DD/YYYY", "02/29/2023", Given { year: year(2023, 4, 4), month: Some(2), day: Some(29), ..g() }, true));
+        v.push((ty, "DD/MM/YYYY", "29/02/2024", Given { year: year(2024, 4, 4), month: Some(2), day: Some(29), ..g() }, true));
+        v.push((ty, "MON DD YYYY", "feb 29 1900", Given { year: year(1900, 4, 4), month: Some(2), day: Some(29), ..g() }, true));
+        // a year and a day, the month from the clock: the day must exist in that month of the *text's* year
+        v.push((ty, "YYYY DD", "2024 29", Given { year: year(2024, 4, 4), day: Some(29), ..g() }, false));
+        v.push((ty, "YYYY DD", "2023 29", Given { year: year(2023, 4, 4), day: Some(29), ..g() }, false));
+        v.push((ty, "YYYY DD", "2024 30", Given { year: year(2024, 4, 4), day: Some(30), ..g() }, false));
+        v.push((ty, "DD YYYY", "31 2024", Given { year: year(2024, 4, 4), day: Some(31), ..g() }, false));
+        v.push((ty, "YY DD", "24 29", Given { year: year(24, 2, 2), day: Some(29), ..g() }, false));
+    }
     for ty in [Ty::Ts, Ty::Ora] {
         // a meridian without an hour field: the omitted 12-hour field is 12
         v.push((ty, "PM", "PM", Given { pm: Some(true), ..g() }, false));
